@@ -125,6 +125,7 @@ type VC struct {
 	entryVars  map[string]Val    // parameters of the function under verification (entry values)
 	noInst     bool              // render queries without engine-side quantifier instances
 	bridged    map[string]bool   // bit-vector constants that came from an integer (int2bv)
+	marshalled []marshalRec      // amino encodings produced so far in this function
 }
 
 func newVC(eng *Engine, name string, c *Contract) *VC {
